@@ -361,6 +361,10 @@ def helloTimes (out : List String) : List Nat :=
     | _ => none)
 
 def checkC12 (steps : List Step) : Option (Nat × String) := Id.run do
+  -- C12 speaks about "the session table holds a session that is not yet complete": the table must first of all be a table
+  match checkC16 steps with
+  | some (i, msg) => return some (i, "C12 (the session table the Hello rule is stated over): " ++ msg)
+  | none => pure ()
   let mut s : Seen := {}
   let mut evs : List TickEv := []
   let mut wiredOnly := true
